@@ -185,10 +185,19 @@ class TextContent(BaseModel):
         converted_text = ""
         for char in text:
             unicode_int = ord(char)
-            if unicode_int <= 255 and unicode_int != 177:
+            if unicode_int < 128:
                 converted_text += char
+                continue
+            # The file is written as UTF-8 under an \ansi header, so every
+            # non-ASCII character must be escaped; characters beyond the BMP
+            # are written as a UTF-16 surrogate pair (RTF \u is signed 16-bit).
+            if unicode_int > 0xFFFF:
+                high, low = divmod(unicode_int - 0x10000, 0x400)
+                code_units = [0xD800 + high, 0xDC00 + low]
             else:
-                rtf_value = unicode_int - (0 if unicode_int < 32768 else 65536)
+                code_units = [unicode_int]
+            for code_unit in code_units:
+                rtf_value = code_unit - (0 if code_unit < 32768 else 65536)
                 converted_text += f"\\uc1\\u{rtf_value}*"
 
         text = converted_text
